@@ -706,12 +706,84 @@ def find_table_witness(data, two_letter, groups):
     return found
 
 
+# ---------------------------------------------------------------------------------------------
+# the harness' table of (name, property function): generated from the source on every run
+# ---------------------------------------------------------------------------------------------
+
+def function_candidates(data=None):
+    """Names that may be functions `pest::unicode::NAME(char) -> bool`, in source order.  Deliberately lenient (unlike
+    translate()): it has to produce a list for ANY edit of mod.rs, also one the strict translator refuses.  The list is
+    only a first guess - the driver lets rustc decide which of the candidates exist (an entry that does not compile is
+    moved to NOFN with the compiler's message) and adds every name the real code advertises at run time."""
+    out = []
+
+    def add(n):
+        if IDENT.match(n) and n not in out:
+            out.append(n)
+    if data is not None:
+        for _, _, lst in data["functions"]:
+            for p, _, _ in lst:
+                add(p)
+    try:
+        src = strip_comments(read("pest/src/unicode/mod.rs"))
+    except TranslatorError:
+        return out
+    for m in re.finditer(r"char_property_functions!\s*\{", src):
+        try:
+            end = balanced(src, m.end() - 1, "{", "}")
+        except (TranslatorError, AssertionError):
+            continue
+        inner = src[m.end():end - 1]
+        for bm in re.finditer(r"static\s+\w+\s*=\s*\[(.*?)\]\s*;", inner, re.S):
+            items = re.sub(r'"(?:[^"\\]|\\.)*"', " ", bm.group(1))
+            for n in re.findall(r"[A-Za-z_][A-Za-z0-9_]*", items):
+                add(n)
+    for m in re.finditer(r"property_functions!\s*\(\s*\w+\s*,\s*\w+\s*,\s*\[(.*?)\]\s*\)", src, re.S):
+        if "$" in m.group(1):
+            continue
+        items = re.sub(r'"(?:[^"\\]|\\.)*"', " ", m.group(1))
+        for n in re.findall(r"[A-Za-z_][A-Za-z0-9_]*", items):
+            add(n)
+    for n in re.findall(r"pub\s+fn\s+(\w+)\s*\(\s*\w+\s*:\s*char\s*\)\s*->\s*bool", src):
+        add(n)
+    return out
+
+
+RUST_NAMES_HEADER = ("// GENERATED by tools/unicode2v.py (render_rust_names) from pest/src/unicode/mod.rs - do not edit; regenerated on every\n"
+                     "// run of `./check C16`.  One entry per line: an entry rustc rejects (the function does not exist / has another type) is\n"
+                     "// moved to NOFN by the driver, so that the harness builds for any set of advertised names.\n")
+
+
+def render_rust_names(cands, nofn=None):
+    """Source of rust/harness/gen/c16_names.rs: FNS = (name, pest::unicode::NAME) for every candidate, NOFN = (name, why) for the
+    candidates rustc refused.  -> (text, {line number: name})"""
+    nofn = nofn or {}
+    lines = RUST_NAMES_HEADER.rstrip("\n").split("\n")
+    lines.append("static FNS: &[(&str, fn(char) -> bool)] = &[")
+    at = {}
+    for n in cands:
+        if n in nofn:
+            continue
+        lines.append('    ("%s", pest::unicode::%s as fn(char) -> bool),' % (n, n))
+        at[len(lines)] = n
+    lines.append("];")
+    lines.append("/// candidates that are not functions `pest::unicode::NAME(char) -> bool` according to rustc")
+    lines.append("static NOFN: &[(&str, &str)] = &[")
+    for n in cands:
+        if n in nofn:
+            lines.append('    ("%s", "%s"),' % (n, nofn[n].replace("\\", "\\\\").replace('"', '\\"')))
+    lines.append("];")
+    return "\n".join(lines) + "\n", at
+
+
 if __name__ == "__main__":
     if len(sys.argv) > 1 and sys.argv[1] == "--rust-list":
-        # the identifier list of rust/harness/src/bin/c16.rs (`static FNS = fns!(...)`)
-        import textwrap
-        d = translate()
-        print(textwrap.fill(", ".join(p for _, _, lst in d["functions"] for p, _, _ in lst), 110, initial_indent="    ", subsequent_indent="    "))
+        # the first guess of rust/harness/gen/c16_names.rs (the driver prunes it with rustc, see lib/props/c16.py)
+        try:
+            d = translate()
+        except TranslatorError:
+            d = None
+        sys.stdout.write(render_rust_names(function_candidates(d))[0])
         sys.exit(0)
     out = sys.argv[1] if len(sys.argv) > 1 else os.path.join(os.path.dirname(os.path.dirname(os.path.abspath(__file__))), "coq", "gen")
     try:
